@@ -17,10 +17,25 @@ for i in ids:
         elif getattr(mod, "NOT_CLAIMED", None):
             NOT_CLAIMED_REASON[i] = mod.NOT_CLAIMED
 
+# the source ties added after the check modules were written (DESIGN.md 2.2): appended to the claimed text
+TIE = {
+ "C01": "_query_linear (initial minimum, row-loop body)",
+ "C02": "hyperloglog _add (index, rank, register update), _merge loop body, _n_leading_zeros64",
+ "C03": "heavy-hitter _add/_merge cell updates and the _max_count row body",
+ "C04": "heavy-hitter _add/_merge cell updates",
+ "C05": "_add_linear (straight-line part and update-loop body), _query_log*/_add_log* regions",
+ "C06": "_rand pointer logic and the body of _log_counter's loop",
+ "C07": "the HyperLogLog estimator composed from regenerated pieces on the empty sketch",
+ "C09": "_merge_linear and _merge_log16/_merge_log8 cell bodies and counter updates (log: under the stated hypothesis on the np.log quotient)",
+ "C17": "_query's decision structure, _linear_counting, _estimation_function, the alpha expression",
+ "C18": "_func/_funcprime/_counter2value (real mode), the saturation branches of _log_counter and _merge_log*",
+}
 checks = []
 for i in ids:
     if i in CLAIMED:
-        c = CLAIMED[i]
+        c = dict(CLAIMED[i])
+        if i in TIE:
+            c["text"] = c["text"] + "  Source tie: " + TIE[i] + " are regenerated from /repo's AST on every run and proved equal to the corresponding pieces of the model (…_source_tie theorems), so an edit of those regions breaks a proof obligation."
         checks.append({
             "property_id": i,
             "quick_cmd": f"./check {i} --tier quick",
@@ -42,7 +57,7 @@ m = {
            "source_commits": [], "add_only": True},
  "engines": [{"name": "coq-model+correspondence", "path": "/verif/coq + /verif/harness",
               "serves_properties": sorted(CLAIMED),
-              "kind_free_text": "Coq 8.16 theorems over a hand-written Gallina model of the kernels (constants/tables regenerated from /repo each run) + differential correspondence check (model evaluated by vm_compute vs the Numba implementation)"}],
+              "kind_free_text": "Coq 8.16 theorems over a hand-written Gallina model of the kernels (constants, tables, the hash functions and the bodies of the count-min / heavy-hitter / HyperLogLog kernels regenerated from /repo's AST each run and tied to the model by proof) + differential correspondence check (model evaluated by vm_compute vs the Numba implementation)"}],
  "checks": checks,
  "notes": "Four genuine defects were repaired in /repo by separate fix: commits (see known_findings.json and DESIGN.md section 5).",
  "not_applicable": na,
